@@ -127,6 +127,17 @@ func BuildPool() []*Item {
 		p.NumLevels = 0
 		p.MCTBindings = []jpeg2000.MCTBindingParams{{AssocType: 2, ComponentIDs: []uint16{0, 1}, Matrix: [][]float64{{1, 0}, {0, 1}}, Inverse: [][]float64{{1, 0}, {0, 1}}, Offsets: []int32{5, -5}, ElementType: 1}}
 	})
+	// A hand-written 8x8 stream with the "JP2MCT" comment payload (a custom inverse component
+	// transform the decoder accepts as a fallback, version 1: rows, cols, reversible flag, float32
+	// matrix); the library's encoder never writes it, so only this item lets mutations reach it.
+	com := []byte{0xFF, 0x4F,
+		0xFF, 0x51, 0, 41, 0, 0, 0, 0, 0, 8, 0, 0, 0, 8, 0, 0, 0, 0, 0, 0, 0, 0, 0, 0, 0, 8, 0, 0, 0, 8, 0, 0, 0, 0, 0, 0, 0, 0, 0, 1, 7, 1, 1,
+		0xFF, 0x52, 0, 12, 0, 0, 0, 1, 0, 0, 4, 4, 0, 1,
+		0xFF, 0x5C, 0, 4, 0x40, 0x48,
+		0xFF, 0x64, 0, 20, 0, 0, 'J', 'P', '2', 'M', 'C', 'T', 1, 0, 1, 0, 1, 0, 0x3F, 0x80, 0, 0,
+		0xFF, 0x90, 0, 10, 0, 0, 0, 0, 0, 15, 0, 1, 0xFF, 0x93, 0x00,
+		0xFF, 0xD9}
+	add("j2k-com-jp2mct", "j2k", com, dec.Info{W: 8, H: 8, BA: 8, BS: 8, SPP: 1}, "j2k", "j2k-parser", "codec:90")
 	// HTJ2K through the codec
 	for i, ts := range []*transfer.Syntax{transfer.HTJ2KLossless, transfer.HTJ2K} {
 		im := noise(13, 11, 1+2*i, 8, uint64(50+i))
